@@ -99,6 +99,57 @@ Theorem C17_text_exact_refuted : exists v : str, strip v <> v /\ strip v = [120]
 Proof. exact strip_refuted. Qed.
 Print Assumptions C17_text_exact_refuted.
 
+(* THE WHOLE IMAGE AS ONE THEOREM.  `image_events i` is the event sequence of the document
+   GiftiImage._to_xml_element describes for the written image i (version, global metadata,
+   label table, and per data array: attributes, metadata, coordinate system texts, Data text),
+   one character-data event per non-empty text.  Oracle premises: base64 and zlib invert
+   (as in C17_block_roundtrip), np.loadtxt reads each MatrixData text back as the array's
+   transform, and - ElementTree + expat - the events delivered for the document are
+   `image_events i` up to the chunking of character data (merge evs = merge (image_events i)).
+   Conclusion: the parser returns exactly `norm_image i`: same version, metadata pairs with
+   name/value stripped (dictionary built in order), labels with key, colours and stripped
+   text, and the data arrays in order with their attributes, metadata, stripped space names,
+   transform and THE SAME ELEMENTS - for B64BIN/B64GZ, both orders, both byte orders, any rank. *)
+Theorem C17_whole_image_roundtrip :
+  forall (b64enc : list Z -> str) (b64dec : str -> option (list Z))
+         (zcomp : list Z -> list Z) (zdecomp : list Z -> option (list Z))
+         (loadtxt : Z -> str -> option (list nat * list Z)),
+  (forall x, b64dec (b64enc x) = Some x) -> (forall x, zdecomp (zcomp x) = Some x) ->
+  forall (i : wimage) (evs : list event),
+    Forall (written_da b64enc zcomp loadtxt) (wi_das i) ->
+    merge evs = merge (image_events i) ->
+    parse b64dec zdecomp loadtxt evs = Ok (norm_image i).
+Proof. exact whole_image_roundtrip. Qed.
+Print Assumptions C17_whole_image_roundtrip.
+
+(* the same for any data-array encoding (ASCII included) when the decoding of each Data text is
+   given as a premise instead of derived: da_ok = loadtxt reads the transform, read_data_block
+   reads the elements *)
+Theorem C17_whole_image : forall b64dec zdecomp loadtxt (i : wimage) evs,
+  Forall (da_ok b64dec zdecomp loadtxt) (wi_das i) -> merge evs = merge (image_events i) ->
+  parse b64dec zdecomp loadtxt evs = Ok (norm_image i).
+Proof. exact whole_image_any_chunking. Qed.
+Print Assumptions C17_whole_image.
+
+Example C17_whole_image_nonvacuous :
+  let a := mkAttrs 0 8 ord_f [2; 3] enc_b64gz end_big [] 0 in
+  let id := fun x : list Z => x in
+  let d := mkWda a [([110], [32; 118])] [85] [85] [49] (99 :: tobytes true 4 true [2%nat; 3%nat] [0; 1; 2; 3; 4; 5])
+                 [7] [0; 1; 2; 3; 4; 5] in
+  let i := mkWimg [49] [([107], [32; 120; 32])] [(3, [None; None; None; None], [108; 32])] [d] in
+  written_da id (fun x => 99 :: x) (fun _ _ => Some ([1%nat], [7])) d /\
+  parse (fun x => Some x) (fun x => Some (tl x)) (fun _ _ => Some ([1%nat], [7])) (image_events i)
+  = Ok (mkImg (Some [49]) [([107], [120])] [mkLabel 3 [None; None; None; None] (Some [108])]
+              [mkDA a (Some [([110], [118])]) (mkCS (Some [85]) (Some [85]) (Some [7])) (Some [0; 1; 2; 3; 4; 5])]).
+Proof.
+  cbv zeta. split; [|vm_compute; reflexivity].
+  exists true, true, true, 4%nat, [2%nat; 3%nat].
+  repeat (split; [try reflexivity; try lia|]).
+  - repeat constructor; vm_compute; intuition discriminate.
+  - discriminate.
+  - eexists. reflexivity.
+Qed.
+
 (* non-vacuity: a 2x3 int32 array, column major, big endian, through B64GZ with concrete
    (toy) oracles; and a two-chunk / one-chunk parse of a metadata value with blanks *)
 Example C17_nonvacuous :
